@@ -66,6 +66,11 @@ def gen_play(rng, fail_at=None, tolerated=False, nacts=None, repeat=None, long_a
             marks[nm[:-1] + str(int(nm[-1]) - 1)] = "?"
         else:
             nm = names[fail_at % len(names)]
+            if tolerated:
+                # prefer a tolerated failure that is followed by another action of its line: the line must go on
+                followed = [n for n in names if n[:-1] + str(int(n[-1]) + 1) in actions]
+                if followed:
+                    nm = followed[fail_at % len(followed)]
         actions[nm][1] = 3
         marks[nm] = "?" if tolerated else ""
     out = ["role r"]
